@@ -263,10 +263,14 @@ int json_parse_uint64(const char *buf, uint64_t *retval)
 	uint64_t val;
 
 	errno = 0;
-	while (*buf == ' ')
+	/* skip everything strtoull() would skip, so a sign cannot hide behind it */
+	while (*buf == ' ' || (*buf >= '\t' && *buf <= '\r'))
 		buf++;
 	if (*buf == '-')
+	{
+		errno = EINVAL;
 		return 1; /* error: uint cannot be negative */
+	}
 
 	val = strtoull(buf, &end, 10);
 	if (end != buf)
